@@ -540,6 +540,16 @@ func (e *Env) Monitor(st *Step) {
 					cls = "pool_short" // D6 inside the hook
 				} else if strings.Contains(st.Res, "div_zero") {
 					cls = "zero_token_destination" // D8: a pending redelegation points at a validator slashed to zero tokens
+				} else if strings.Contains(st.Res, "neg_dec_coin") || strings.Contains(st.Res, "neg_coin") {
+					// D13 inside the hook: the asset's validator-share total, already below the validators' sum by drift, goes
+					// NEGATIVE when a near-total slash takes the validator's own shares off it; the conversions that follow
+					// (redelegation destinations) build a negative coin and panic. Bounded by its mechanism: the partial state
+					// the callback leaves shows an asset with a negative share total.
+					for _, a := range post.Assets {
+						if a.S.Sign() < 0 {
+							cls = "negative_share_total"
+						}
+					}
 				} else if strings.Contains(st.Res, "no_validator") {
 					// the slashed validator exists: a pending redelegation out of it points at a validator x/staking has removed
 					for _, ri := range pre.RI {
